@@ -75,12 +75,15 @@ def pick_channels(rng, knobs):
     ch = {}
     for key in sorted(knobs):
         r = rng.random()
-        if key.endswith('sparselib') or key.startswith('System.'):
+        if key.endswith('sparselib') or key.startswith('System.') or key in CONSTRUCTOR_TIME:
             ch[key] = 'rc' if r < 0.4 else 'option'      # constructor-time fields
         else:
             ch[key] = 'option' if r < 0.45 else ('rc' if r < 0.75 else 'attr')
     return ch
 
+
+# fields that ANDES reads once in a constructor: only the three documented channels can deliver them
+CONSTRUCTOR_TIME = ('TDS.method', 'TDS.tol', 'TDS.store_z', 'TDS.store_f', 'TDS.store_h', 'TDS.store_i')
 
 TIME_CLASSES = ['t0', 'tf', 'grid', 'offgrid', 'ulp_up', 'ulp_down', 'coincident', 'near', 'beyond_tf', 'negative',
                 'boundary', 'before_boundary', 'after_boundary', 'tiny']
